@@ -3,9 +3,12 @@
 // Monitor: a generated repository (histgen history with explicit commit dates
 // + a seeded plan of local state: partial pushes through the real pre-push
 // hook to an in-driver fake LFS server, unpushed commits, stashes of four
-// shapes, extra worktrees, staged files, detached HEAD, files moving in and out
-// of LFS tracking, unreachable objects, objects lost on the server) is pruned
-// with several flag sets. Before every `git lfs prune` the local store is
+// shapes, extra worktrees (present / directory removed = "prunable" / removed
+// and locked / detached / with a staged file / unregistered again by `git
+// worktree prune`; often checked out at an old, fully pushed commit so that the
+// worktree is the only thing that needs the objects), staged files, detached
+// HEAD, files moving in and out of LFS tracking, unreachable objects, objects
+// lost on the server) is pruned with several flag sets. Before every `git lfs prune` the local store is
 // restored to the full set; deleted = objects before − objects after.
 //
 // Oracle (oracle.go): a deliberately weak lower bound "must-retain", computed
@@ -118,6 +121,13 @@ type caseCfg struct {
 	ServerLoss  bool
 	Flagsets    [][]string
 	HistSeed    int64
+	// dedicated extra worktrees added at the very end of the state (worktrees.go): state kind of the first one
+	// (index-driven), whether its HEAD is an old, pushed commit with fresh objects nothing else retains, and the
+	// kind of an optional second one ("" = none)
+	WtKind  string
+	WtSole  bool
+	WtKind2 string
+	WtSole2 bool
 }
 
 // PruneRemote is the remote prune treats as "pushed to" (default origin).
@@ -216,6 +226,8 @@ func genCfg(run *evid.Run, r *rand.Rand, idx int) caseCfg {
 			c.RefsDays = dayChoices[1+r2.Intn(3)]
 		}
 	}
+	r5 := rand.New(rand.NewSource(mix(run.Seed, idx, 5)))
+	c.WtKind, c.WtSole, c.WtKind2, c.WtSole2 = genWorktreeKinds(run.Seed, idx, r5)
 	n := len(flagPool)
 	period := idx / len(slotTags)
 	dry := append([]string{"--dry-run"}, flagPool[(idx*3+period)%n]...)
@@ -223,8 +235,9 @@ func genCfg(run *evid.Run, r *rand.Rand, idx int) caseCfg {
 	if f2 := (idx*3 + 1 + period) % n; f2 != idx%n {
 		c.Flagsets = append(c.Flagsets, flagPool[f2])
 	}
-	if c.Tag != "" || c.Second || run.Thorough() {
-		// cases that carry a known trigger (and every thorough case) also get the two most telling flag sets
+	if c.Tag != "" || c.Second || run.Thorough() || wtMissing(c.WtKind) || wtMissing(c.WtKind2) {
+		// cases that carry a known trigger or a registered worktree whose directory is gone (and every thorough
+		// case) also get the two most telling flag sets
 		for _, must := range [][]string{{}, {"--force"}} {
 			present := false
 			for _, f := range c.Flagsets[1:] {
@@ -951,6 +964,8 @@ func (c *cs) buildState() {
 		c.stepStage(c.wts[len(c.wts)-1])
 		c.feat["worktree-staged"] = true
 	}
+	// final states of the linked worktrees (directory removed, locked, detached, staged file, git worktree prune)
+	c.stepWorktreeStates()
 	// configuration under test is written last so that building the state is not influenced by it
 	c.mustGit(c.main, "config", "config", "lfs.fetchrecentrefsdays", fmt.Sprint(cfg.RefsDays))
 	c.mustGit(c.main, "config", "config", "lfs.fetchrecentcommitsdays", fmt.Sprint(cfg.CommitsDays))
@@ -1052,6 +1067,16 @@ func runCase(run *evid.Run, idx int) {
 	for cl, n := range orc.sizes() {
 		run.Count("must_retain_"+cl, int64(n))
 	}
+	onlyPrunable, onlyLocked, onlyPresent := orc.neededOnlyBy("dir-missing"), orc.neededOnlyBy("dir-missing-locked"), orc.neededOnlyBy("present")
+	run.Count("objects_needed_only_by_prunable_worktree", int64(onlyPrunable))
+	run.Count("objects_needed_only_by_missing_locked_worktree", int64(onlyLocked))
+	run.Count("objects_needed_only_by_checkout_and_index_of_present_worktrees", int64(onlyPresent))
+	if onlyPrunable > 0 {
+		run.Count("cases_with_objects_needed_only_by_prunable_worktree", 1)
+	}
+	if onlyLocked > 0 {
+		run.Count("cases_with_objects_needed_only_by_missing_locked_worktree", 1)
+	}
 	full := localOids(gitDir)
 	content := map[string][]byte{}
 	for oid := range full {
@@ -1114,7 +1139,11 @@ func runCase(run *evid.Run, idx int) {
 		if cfg.PruneCfg == "unset" {
 			pr = "default"
 		}
-		class := fmt.Sprintf("trigger=%s|attr=%s|ambient=%s|cwd=%s|%s,prune-remote=%s,remoterefs=%s|flags=%s", c.trigger(), cfg.AttrID, cfg.AmbID, cfg.Cwd, remotes, pr, cfg.RemoteRefs, fl)
+		wt := cfg.WtKind
+		if cfg.WtKind2 != "" {
+			wt += "," + cfg.WtKind2
+		}
+		class := fmt.Sprintf("trigger=%s|attr=%s|ambient=%s|cwd=%s|wt=%s|%s,prune-remote=%s,remoterefs=%s|flags=%s", c.trigger(), cfg.AttrID, cfg.AmbID, cfg.Cwd, wt, remotes, pr, cfg.RemoteRefs, fl)
 		run.Count("prune_runs", 1)
 		run.Count("objects_before", int64(len(before)))
 		run.Count("objects_after", int64(len(after)))
@@ -1147,6 +1176,14 @@ func runCase(run *evid.Run, idx int) {
 		}
 		dry := has(flags, "--dry-run")
 		force := has(flags, "--force")
+		if !dry && !force {
+			if onlyPrunable > 0 {
+				run.Count("prune_runs_judging_objects_needed_only_by_prunable_worktree", 1)
+			}
+			if onlyLocked > 0 {
+				run.Count("prune_runs_judging_objects_needed_only_by_missing_locked_worktree", 1)
+			}
+		}
 		recent := force || has(flags, "--recent")
 		verify := has(flags, "--verify-remote")
 		bad := map[evid.Sig][]map[string]string{}
@@ -1164,6 +1201,13 @@ func runCase(run *evid.Run, idx int) {
 					if cl == "recent-remote-ref" {
 						// trigger of this clause = whose remote-tracking branch keeps the object recent
 						trig = orc.remoteRefKind[oid]
+					}
+					if cl == "checkout" {
+						// an object that only registered worktrees without a directory need carries that state
+						// as its coordinate
+						if t := orc.checkoutTrigger(oid); t != "" {
+							trig = t
+						}
 					}
 					flag(cl+"-object-pruned", trig, oid, why)
 				}
@@ -1198,7 +1242,7 @@ func runCase(run *evid.Run, idx int) {
 			what := fmt.Sprintf("git lfs prune %s (exit %d) deleted %d object(s) it must retain [%s], e.g. %s: %s", fl, res.Code, len(objs), sig.Symptom, objs[0]["oid"], objs[0]["why"])
 			run.Violation(sig, what, c.detail(flags, map[string]any{"objects": objs, "symptom": sig.Symptom, "prune_stdout": sbx.Trunc(res.Stdout, 600), "prune_stderr": sbx.Trunc(res.Stderr, 600), "lost_on_server": lost, "halted": halted}))
 		}
-		run.Case(class, map[string]any{"case": idx, "class": class, "days": []int{cfg.RefsDays, cfg.CommitsDays, cfg.OffsetDays}, "fetchexclude": cfg.Exclude, "remote": cfg.Remote, "prune_remote": cfg.PruneRemote(), "second_remote": cfg.Second, "fetchrecentremoterefs": cfg.RemoteRefs, "features": keys(c.feat),
+		run.Case(class, map[string]any{"case": idx, "class": class, "days": []int{cfg.RefsDays, cfg.CommitsDays, cfg.OffsetDays}, "fetchexclude": cfg.Exclude, "remote": cfg.Remote, "prune_remote": cfg.PruneRemote(), "second_remote": cfg.Second, "fetchrecentremoterefs": cfg.RemoteRefs, "features": keys(c.feat), "worktree_kinds": wt, "needed_only_by_prunable_worktree": onlyPrunable,
 			"objects_before": len(before), "deleted": len(deleted), "exit": res.Code, "must_retain": orc.sizes(), "history_ops": len(c.g.Log), "state_steps": len(c.steps)})
 	}
 	for f := range c.feat {
@@ -1215,9 +1259,9 @@ func main() {
 	if os.Getenv("VERIF_C05_KEEP") == "" {
 		defer sbx.RemoveBase()
 	}
-	run.Rule = "per repository: histgen history (branches, merges incl. octopus, orphan branches, tags, renames/copies/deletes, symlinks, exec bits, empty files, >=2 LFS files per commit in 3/4 of the cases) with commit ages drawn from {0.5,1.5,2.5,5,9,12,30} days; partial push (whole branch / ancestor / nothing / tags) through the pre-push hook to the in-driver fake LFS server; seeded plan over {local commits with 1-3 LFS files, delete+modify commits, stash plain/-u/--keep-index/--staged, staged files, unreachable objects, detached HEAD, branch switches, extra worktrees (detached or on a new branch, with staged file / local commit / stash), text files moving in and out of LFS tracking, later pushes, stash drop, objects deleted on the server} x lfs.fetchrecentrefsdays/fetchrecentcommitsdays/pruneoffsetdays in {0,1,3,7} x lfs.fetchexclude patterns x prune remote name x cwd {top, sub-directory, extra worktree} x attribute spelling {track line, text, eol=lf, text eol=lf, diff=custom; tagged: binary, -diff, custom driver declared binary} x ambient ~/.gitconfig profile (9 harmless profiles; tagged: diff.noprefix, log.showroot=false, diff.relative) x remotes {single; in 1/3 of the cases a second remote `upstream` with its own LFS store, 2-3 branches with fresh objects pushed only to it with tip ages on both sides of the recent-refs window, one more pushed only to the first remote, local branches deleted (sometimes kept)} x lfs.pruneremotetocheck {unset, first remote, upstream} x lfs.fetchrecentremoterefs {unset, true, false} x flag sets {--dry-run + X, (none), --recent, --force, --verify-remote, +--verify-unreachable, +--when-unverified=continue, combinations}. One evaluation = one `git lfs prune` run on the fully restored store. Class = (known trigger in the case, attribute spelling, ambient profile, cwd kind, remotes/prune remote/fetchrecentremoterefs, flags). Each period of 18 cases has 10 without any known trigger and 8 with exactly one."
+	run.Rule = "per repository: histgen history (branches, merges incl. octopus, orphan branches, tags, renames/copies/deletes, symlinks, exec bits, empty files, >=2 LFS files per commit in 3/4 of the cases) with commit ages drawn from {0.5,1.5,2.5,5,9,12,30} days; partial push (whole branch / ancestor / nothing / tags) through the pre-push hook to the in-driver fake LFS server; seeded plan over {local commits with 1-3 LFS files, delete+modify commits, stash plain/-u/--keep-index/--staged, staged files, unreachable objects, detached HEAD, branch switches, extra worktrees (detached or on a new branch, with staged file / local commit / stash; at the end 1/4 of them lose their directory, a third of those locked), text files moving in and out of LFS tracking, later pushes, stash drop, objects deleted on the server} x lfs.fetchrecentrefsdays/fetchrecentcommitsdays/pruneoffsetdays in {0,1,3,7} x lfs.fetchexclude patterns x prune remote name x cwd {top, sub-directory, extra worktree} x attribute spelling {track line, text, eol=lf, text eol=lf, diff=custom; tagged: binary, -diff, custom driver declared binary} x ambient ~/.gitconfig profile (9 harmless profiles; tagged: diff.noprefix, log.showroot=false, diff.relative) x remotes {single; in 1/3 of the cases a second remote `upstream` with its own LFS store, 2-3 branches with fresh objects pushed only to it with tip ages on both sides of the recent-refs window, one more pushed only to the first remote, local branches deleted (sometimes kept)} x lfs.pruneremotetocheck {unset, first remote, upstream} x lfs.fetchrecentremoterefs {unset, true, false} x final worktree states: one dedicated extra worktree per case with kind by case index in {present, present+staged LFS file, present detached, directory removed (Git: prunable), removed detached, removed + git worktree lock, removed + git worktree prune (registration gone)}, a second one in half of the cases; in 3/4 (always for kind removed) its HEAD is a dedicated commit aged 30 days with two fresh LFS files, pushed to the prune remote, so that only the registered worktree's checkout needs them; occasionally git worktree prune as last step x flag sets {--dry-run + X, (none), --recent, --force, --verify-remote, +--verify-unreachable, +--when-unverified=continue, combinations}. One evaluation = one `git lfs prune` run on the fully restored store. Class = (known trigger in the case, attribute spelling, ambient profile, cwd kind, kinds of the dedicated worktrees, remotes/prune remote/fetchrecentremoterefs, flags). Each period of 18 cases has 10 without any known trigger and 8 with exactly one."
 	run.Assumptions = []string{
-		"must-retain is a lower bound: weakest readings are documented in oracle.go (recent remote refs = tips of remote-tracking branches of every remote unless lfs.fetchrecentremoterefs=false; stash = objects the stash commits add relative to their base commit; recent refs = local branches only; previous versions = pointers replaced by a pointer or deleted in a non-merge commit reachable through in-window commits; unpushed = in a tree of a commit reachable from a local branch/tag and in no tree of a commit reachable from refs/remotes/<prune remote>/*; fetchexclude exempts generously; --force waives everything but unpushed)",
+		"must-retain is a lower bound: weakest readings are documented in oracle.go (checkout = HEAD tree of every non-bare entry of `git worktree list --porcelain`, directory present or not, until `git worktree prune` unregisters it; index only of worktrees whose directory exists; recent remote refs = tips of remote-tracking branches of every remote unless lfs.fetchrecentremoterefs=false; stash = objects the stash commits add relative to their base commit; recent refs = local branches only; previous versions = pointers replaced by a pointer or deleted in a non-merge commit reachable through in-window commits; unpushed = in a tree of a commit reachable from a local branch/tag and in no tree of a commit reachable from refs/remotes/<prune remote>/*; fetchexclude exempts generously; --force waives everything but unpushed)",
 		"commit ages are >= 12 h away from every window boundary; the only use of the wall clock is the base time the ages are subtracted from",
 		"objects reachable from the remote-tracking refs were uploaded by the pre-push hook (the fake server loses only the objects the driver deletes)",
 		"git 2.39.5, TZ=UTC",
